@@ -226,9 +226,51 @@ func runC11(w *World, tier string) (bool, interface{}) {
 		w.Fail("C11", "startdkg-rejected", rep.ErrMsg)
 		return false, nil
 	}
+	// process death of an honest bystander while it handles the victim's refusal: the
+	// node is killed at a tape-chosen store call / board call of the tick that consumes the
+	// refusal and restarted on the same state directory; it must still end cancelled
+	crashNode := -1
+	if n >= 3 && w.Tape.Bool(1, 3, "bystanderDies") {
+		for _, i := range permOf(w, n) {
+			if i != D && i != V {
+				crashNode = i
+				break
+			}
+		}
+	}
+	armed, died := false, false
+	c.L.AfterStep = func() {
+		if crashNode < 0 {
+			return
+		}
+		nd := w.Nodes[crashNode]
+		if nd.inc == nil {
+			if !died {
+				died = true
+				w.Stats.Fault("crash-hot")
+			}
+			if err := w.RestartNode(nd); err != nil {
+				w.Fail("C11", "restart-failed", err.Error())
+			}
+			w.CrashAtGate = 0
+			return
+		}
+		if armed || died {
+			return
+		}
+		for _, m := range w.Board.Msgs {
+			if m.DkgRoundID == round && strings.HasSuffix(m.Event, "canceled_by_error") && nd.Offset() <= m.Offset && nd.Offset()+1 >= m.Offset {
+				// the refusal is (about) the next message this node reads
+				w.ArmCrash(crashNode, 1+w.Tape.Choose(8, "dieAtGate"))
+				armed = true
+				break
+			}
+		}
+	}
 	c.L.RunUntil(func() bool {
 		return c.AllInState(round, StIdle, members) || c.AnyCancelled(round, members)
 	}, 500*n)
+	w.CrashAtGate = 0
 	c.L.Quiesce(10)
 	if !fired {
 		return false, fmt.Sprintf("deviation %s did not apply (n=%d t=%d)", kind, n, t)
